@@ -9,8 +9,9 @@ from common import Ctx, MachineryError, pmap
 
 JUDGE = ["C20_Zero", "C20_NonNegative", "C20_Monotone", "C20_ByName", "C20_Exact64", "C20_Mono", "C20_Scale", "C20_ScaleModuloQuantisation", "C20_Units", "C20_Reject"]
 BASE = dict(Fonts=set(range(1, 11)), SizeIdx=set(range(1, len(strwidth20.SIZES) + 1)), Classes={"ascii", "latin1", "greek"}, Units={"in", "mm", "px"},
-            DpiIdx=set(range(1, 7)), BadKinds={"font_number", "font_name", "unit"})
-PLAN = {"quick": dict(exh_len=1, sim_len=14, sim_num=2000), "thorough": dict(exh_len=2, sim_len=14, sim_num=100000)}
+            DpiIdx=set(range(1, 7)), BadKinds={"font_number", "font_name", "unit"}, Modes={"mixed"})
+ALLCLASSES = {"ascii", "latin1", "greek", "digit", "upper", "lower", "space", "punct", "rep"}
+PLAN = {"quick": dict(exh_len=1, sim_len=14, sim_num=2000, homog_num=2500), "thorough": dict(exh_len=2, sim_len=14, sim_num=100000, homog_num=60000)}
 
 
 def _judge(ctx, work, recs):
@@ -59,6 +60,11 @@ def run(pid, tier, seed, replay=None):
         ctx.extra["exhaustive_histories"] = len(got)
         g2 = dict(BASE); g2["MaxLen"] = plan["sim_len"]
         got += family.generate(ctx, work, "StrWidth", g2, "long", simulate_num=plan["sim_num"], depth=plan["sim_len"] + 6, seed=seed)
+        # homogeneous texts (all digits / capitals / blanks / one repeated character ...) closed by one other character
+        g3 = dict(BASE); g3.update(MaxLen=plan["sim_len"], Classes=ALLCLASSES, Modes={"homog", "mixed"})
+        hom = family.generate(ctx, work, "StrWidth", g3, "homog", simulate_num=plan["homog_num"], depth=plan["sim_len"] + 8, seed=seed + 1)
+        ctx.extra["homogeneous_histories"] = sum(1 for x in hom if x.get("mode") == "homog")
+        got += hom
         items = []
         seen = set()
         for hh in got:
